@@ -653,6 +653,11 @@ func (pace *Pace) loadCardSecurityFile() error {
 		return fmt.Errorf("[loadCardSecurityFile] NewCardSecurity error: %w", err)
 	}
 
+	// an absent (or empty) file yields no CardSecurity and no error: CAM cannot be verified without it
+	if pace.document.Mf.CardSecurity == nil {
+		return fmt.Errorf("[loadCardSecurityFile] EF.CardSecurity is not present")
+	}
+
 	return nil
 }
 
